@@ -240,7 +240,32 @@ def text_layer_rules(ctx, prefix="R1"):
            wi.lineno)
 
 
+_IS_TEXT_REFERENCE = '''
+def is_text(file):
+    if isinstance(file, io.TextIOBase):
+        return True
+    return hasattr(file, "file") and isinstance(file.file, io.TextIOBase)
+'''
+_IS_BINARY_REFERENCE = '''
+def is_binary(file):
+    if isinstance(file, io.BufferedIOBase):
+        return True
+    return hasattr(file, "file") and isinstance(file.file, io.BufferedIOBase)
+'''
+
+
+def file_mode_rules(ctx, prefix="R1"):
+    """which file objects the text (binary) formats accept: a text (buffered) stream, or a wrapper around one (NamedTemporaryFile)"""
+    from ..equiv import same_function
+    for name, ref in (("is_text", _IS_TEXT_REFERENCE), ("is_binary", _IS_BINARY_REFERENCE)):
+        f = ctx.src(TEXTFILE).func(name)
+        ok, shown = same_function(f, ref)
+        ctx.ob(f"{prefix}.file-mode-test", TEXTFILE, name, "the stream itself or the stream a wrapper holds is of the format's kind", ok,
+               "a wrapper around a text stream is a text file (and one around a binary stream is not): the function computes " + shown, f.lineno)
+
+
 def run(ctx):
+    file_mode_rules(ctx, "R1")
     rna_spelling_rules(ctx)
     nucleotide_text_rule(ctx, "R2.nucleotide-text-normalised")
     number_and_wrap_rules(ctx)
